@@ -61,6 +61,7 @@ struct Interop {
         if (role == 0) { oc.identity = sid_kind; if (cauth) { oc.ca_mask = 1u << cauth; oc.request_client_cert = true; } }
         else { oc.identity = cauth; oc.ca_mask = 1u << sid_kind; }
         oc.tickets = tickets || tls13;
+        if (role == 0 && tls13 && p.get("mearly")) { oc.max_early = 16384; }      // the OpenSSL server accepts 0-RTT data
         if (p.get("noems")) { oc.ems = false; }
         std::string err; osh = ossl_shared_new(oc, &err);
         if (!osh) { setup_err = "openssl ctx: " + err; return false; }
@@ -120,6 +121,15 @@ struct Interop {
         if (role == 1 && resume && ver == 2 && p.get("oearly")) { early = tagged_payload(0, 700 + idx, (size_t) (1 + p.get("oearly") % 1200)); os.early_payload = early; }
         if (role == 1) { if (mx.create(mx_cfg(), mkeys) < 0) { c.why = "matrix server create"; return c; } if (!os.create(osh, resume)) { c.why = "openssl client create"; return c; } }
         else { if (!os.create(osh, resume)) { c.why = "openssl server create"; return c; } if (mx.create(mx_cfg(), mkeys) < 0) { c.why = "matrix client create rc=" + std::to_string(mx.create_rc); return c; } }
+        Bytes mearly;
+        if (role == 0 && resume && ver == 2 && p.get("mearly")) {
+            // the MatrixSSL client writes 0-RTT data if the ticket it holds permits it
+            vsim_set_node(mx.node);
+            if (matrixSslGetMaxEarlyData(mx.ssl) > 0) {
+                mearly = tagged_payload(0, 800 + idx, (size_t) (1 + p.get("mearly") % 1200));
+                if (mx.app_send(mearly.data(), mearly.size(), (p.get("mearly") & 1) != 0) < 0) { mearly.clear(); counters["early.matrix_write_refused"]++; }
+            }
+        }
         pump(mx, os);
         c.mx_complete = mx.alive() && mx.is_complete(); c.os_complete = os.complete && !os.failed;
         c.mx_err = mx.first_error; c.os_alert_sent = os.alert_sent; c.os_alert_recv = os.alert_received;
@@ -132,6 +142,13 @@ struct Interop {
             if (!early.empty() && os.early_write_rc == 1) {
                 counters[c.early_status == SSL_EARLY_DATA_ACCEPTED ? "early.openssl_0rtt_accepted" : "early.openssl_0rtt_rejected"]++;
                 if (c.early_status == SSL_EARLY_DATA_ACCEPTED) { to_mx.push_back(early); }      // the MatrixSSL server must have delivered exactly this, first
+            }
+            if (!mearly.empty()) {
+                Bytes got; for (auto &x : os.early_delivered) { got.insert(got.end(), x.begin(), x.end()); }
+                bool accepted = os.early_status() == SSL_EARLY_DATA_ACCEPTED;
+                counters[accepted ? "early.matrix_0rtt_accepted" : "early.matrix_0rtt_rejected"]++;
+                if (accepted && got != mearly) { c.why = "0-RTT data: OpenSSL accepted early data but read " + std::to_string(got.size()) + " bytes instead of the " + std::to_string(mearly.size()) + " the MatrixSSL client wrote"; }
+                if (!accepted && !got.empty()) { c.why = "0-RTT data: OpenSSL says rejected but delivered early bytes"; }
             }
             for (int k = 0; k < 3; k++) {
                 size_t la = PAYLOADS[(uint64_t) (p.get("pl") + k * 5 + idx) % (sizeof PAYLOADS / sizeof PAYLOADS[0])], lb = PAYLOADS[(uint64_t) (p.get("pl") / 16 + k * 3 + idx) % (sizeof PAYLOADS / sizeof PAYLOADS[0])];
@@ -256,7 +273,8 @@ static Plan c10_gen(uint64_t seed, int tier, uint64_t index) {
     p.cfg["chunk"] = (int64_t) r.below(4);
     p.cfg["pl"] = (int64_t) r.below(4096);
     if (r.chance(2, 3)) { p.cfg["resume"] = 1 + (int64_t) r.below(2); }    // 1: one resumed connection, 2: two
-    if (ver == 2 && role == 1 && p.get("resume") && r.chance(1, 2)) { p.cfg["oearly"] = 1 + (int64_t) r.below(3000); }   // the OpenSSL client sends 0-RTT data on the resumed connections
+    if (ver == 2 && role == 1 && p.get("resume") && r.chance(1, 2)) { p.cfg["oearly"] = 1 + (int64_t) r.below(3000); }
+    if (ver == 2 && role == 0 && p.get("resume") && r.chance(1, 2)) { p.cfg["mearly"] = 1 + (int64_t) r.below(3000); }   // the MatrixSSL client sends 0-RTT data to the OpenSSL server   // the OpenSSL client sends 0-RTT data on the resumed connections
     return p;
 }
 
@@ -295,6 +313,11 @@ static std::vector<Plan> c10_fixed(int tier) {
     for (int s = 0; s < 3; s++) { for (int hrr = 0; hrr < 2; hrr++) { for (int len : { 1, 300, 1200 }) {
         Plan p; p.seed = 108000 + (uint64_t) (s * 100 + hrr * 10 + len % 7); base_cfg(p, 1, 2, S13[s], KK_EC256); p.cfg["resume"] = 2; p.cfg["oearly"] = len; p.cfg["pl"] = s;
         if (hrr) { p.cfg["grp_m1"] = GROUPS[1].id; p.cfg["grp_o1"] = GROUPS[0].id; p.cfg["grp_o2"] = GROUPS[1].id; }     // client's first share P-256, server only takes P-384
+        v.push_back(p);
+    } } }
+    for (int s = 0; s < 3; s++) { for (int hrr = 0; hrr < 2; hrr++) { for (int len : { 2, 301, 1199 }) {
+        Plan p; p.seed = 109000 + (uint64_t) (s * 100 + hrr * 10 + len % 7); base_cfg(p, 0, 2, S13[s], KK_EC256); p.cfg["resume"] = 1; p.cfg["mearly"] = len; p.cfg["pl"] = s;
+        if (hrr) { p.cfg["grp_m1"] = GROUPS[0].id; p.cfg["grp_m2"] = GROUPS[1].id; p.cfg["grp_o1"] = GROUPS[1].id; p.cfg["key_shares"] = 1; }
         v.push_back(p);
     } } }
     // DTLS 1.0 / 1.2: every suite both stacks have, both roles, first connection + session-id resumption
